@@ -27,6 +27,13 @@ class Sym:
     def __hash__(self):
         return hash(('Sym', self.name))
 
+    def pqv_compare(self, op, other, swapped):
+        import ast as _ast
+        if isinstance(other, Sym) and isinstance(op, (_ast.Eq, _ast.NotEq)):
+            eq = other.name == self.name
+            return eq if isinstance(op, _ast.Eq) else not eq
+        return TOP
+
 
 # --------------------------------------------------------------------- Poly
 
